@@ -395,6 +395,8 @@ func propC05(o *out, r *rng, thorough bool) {
 	}
 	c05RegexAndErrorPositions(o)
 	c05ReaderBoundaries(o, r)
+	c05EscapesAndRuns(o)
+	c05HistoryIndependence(o, r)
 	// walks over the token ring, on statements and on random token soups; every depth of pushback up to three
 	walks := 400
 	if thorough {
@@ -421,5 +423,94 @@ func init() {
 		for seed := uint64(1); seed < 200; seed++ {
 			c05Ring(o, rpStr(rp, "text"), newRng(seed))
 		}
+	}
+}
+
+// every backslash escape inside both kinds of quotes (which ones exist is part of the token language), and long runs
+// of one kind of rune: a run of blanks or digits or letters is ONE token however long it is
+func c05EscapesAndRuns(o *out) {
+	for c := rune(1); c < 0x180; c++ {
+		if c == 0x80 {
+			c = 0xa0
+		}
+		for _, q := range []string{"'", "\""} {
+			lexOne(o, "x "+q+"a\\"+string(c)+"b"+q+" y", "escape", true)
+			lexOne(o, q+"\\"+string(c)+q, "escape", true)
+		}
+	}
+	for _, n := range []int{63, 64, 65, 66, 127, 128, 129, 255, 256, 257, 1000, 4095, 4096, 4097} {
+		for _, unit := range []string{" ", "\t", "\n", "\r\n", " \n", "a", "9", "_", "é"} {
+			run := strings.Repeat(unit, n)
+			lexOne(o, "x"+run+"/re/ y", "long-run", true)
+			lexOne(o, run+"'s'", "long-run", true)
+			lexOne(o, "\""+run+"\" "+run, "long-run", true)
+		}
+	}
+}
+
+// the same text gives the same tokens, positions and error messages whenever it is parsed: first or after any
+// other text, through the package-level helpers or through a parser made for it (nothing is carried from one
+// parse to the next)
+func c05HistoryIndependence(o *out, r *rng) {
+	texts := []string{"'cpu' value", "\"bad", "'open", "SELECT", "x 'a'", "'a\\qb' x", "\"q\" 'v' z", "SELECT v FROM m WHERE", "\n\n  'late'", "a\n'b", "1.5.5", "SELECT * FROM cpu\nWHERE x = 'y'\nAND", "", " ", "'", "\"",
+		"f('x'", "$", "SELECT 'a' FROM 'b'", "DROP 'x'", "/* c */ 'x'", "-- c\n'x'"}
+	for i := 0; i < 40; i++ {
+		var b strings.Builder
+		for j := 0; j < 1+r.intn(5); j++ {
+			b.WriteString(pick(r, lexPieces))
+			b.WriteString(pick(r, []string{" ", "\n", ""}))
+		}
+		texts = append(texts, b.String())
+	}
+	render := func(t string, helper bool) string {
+		var st influxql.Statement
+		var e influxql.Expr
+		var q *influxql.Query
+		var e1, e2, e3 error
+		pn := safely(func() {
+			if helper {
+				st, e1 = influxql.ParseStatement(t)
+				e, e2 = influxql.ParseExpr(t)
+				q, e3 = influxql.ParseQuery(t)
+			} else {
+				st, e1 = influxql.NewParser(strings.NewReader(t)).ParseStatement()
+				e, e2 = influxql.NewParser(strings.NewReader(t)).ParseExpr()
+				q, e3 = influxql.NewParser(strings.NewReader(t)).ParseQuery()
+			}
+		})
+		out := fmt.Sprintf("panic=%v | %v | %v | %v", pn, e1, e2, e3)
+		if e1 == nil && st != nil {
+			out += " | " + st.String()
+		}
+		if e2 == nil && e != nil {
+			out += " | " + e.String()
+		}
+		if e3 == nil && q != nil {
+			out += " | " + q.String()
+		}
+		return out
+	}
+	first := map[string]string{}
+	for _, t := range texts {
+		first[t] = render(t, true)
+	}
+	check := func(t string, helper bool, what string) {
+		o.count("history")
+		o.checked()
+		if got := render(t, helper); got != first[t] {
+			o.fail("", fmt.Sprintf("parsing %q %s gives %s; parsed earlier in this process it gave %s", t, what, got, first[t]),
+				map[string]interface{}{"op": "history", "text": t})
+		}
+	}
+	for i := len(texts) - 1; i >= 0; i-- {
+		check(texts[i], true, "again, after other texts")
+	}
+	for _, t := range texts {
+		check(t, false, "with a parser of its own")
+	}
+	for i := 0; i < 200; i++ {
+		a, b := pick(r, texts), pick(r, texts)
+		render(a, true)
+		check(b, true, fmt.Sprintf("directly after %q", a))
 	}
 }
